@@ -8,7 +8,9 @@ Record case := mkCase {
   c_outs : list (list nat * list Q);  (* per rule, in sequence order: returned allocation, satisfaction per voter *)
   c_mults : list nat;                 (* multiplicity per element of the satisfaction profile *)
   c_swc : list (list nat);            (* social_welfare_comparison(...) *)
-  c_pop : list (list nat)             (* popularity_comparison(...) *)
+  c_pop : list (list nat);            (* popularity_comparison(...) *)
+  c_alone : list (list nat)           (* per rule: its output when called ALONE with a fresh copy of the caller's
+                                         initial allocation *)
 }.
 
 Definition outs_of (c : case) : list outcome := map (fun '(a, v) => mkOut a v) (c_outs c).
@@ -29,6 +31,8 @@ Definition best_supp (c : case) (o : outcome) : bool :=
    the rule outputs *)
 Definition exact (c : case) (good : outcome -> bool) (ret : list (list nat)) : bool :=
   setset_eqb ret (map o_alloc (filter good (outs_of c))).
+Definition genuine (c : case) (ret : list (list nat)) : bool :=
+  forallb (fun W => existsb (set_eqb W) (c_alone c)) ret.
 Definition unmodified (c : case) (ret : list (list nat)) : bool :=
   forallb (fun W => existsb (natlist_eqb W) (map o_alloc (outs_of c))) ret.
 
@@ -37,13 +41,16 @@ Definition unmodified (c : case) (ret : list (list nat)) : bool :=
    2 oracle  popularity_comparison is not "exactly the outcomes supported by the largest number of voters"
    3 oracle  a returned allocation is not (literally) the output of one of the rules
    4 model   social_welfare_comparison differs from the model (as a set of sets)
-   5 model   popularity_comparison differs from the model (as a set of sets) *)
+   5 model   popularity_comparison differs from the model (as a set of sets)
+   6 oracle  a returned allocation is not the outcome (as a set) of any of the rules called on its own with the
+             caller's initial allocation *)
 Definition check (c : case) : list nat :=
   let outs := outs_of c in
   flag (exact c (best_total c) (c_swc c)) 1
   ++ flag (exact c (best_supp c) (c_pop c)) 2
   ++ flag (unmodified c (c_swc c) && unmodified c (c_pop c)) 3
   ++ flag (setset_eqb (map o_alloc (swc (c_mults c) outs)) (c_swc c)) 4
-  ++ flag (setset_eqb (map o_alloc (popularity (c_mults c) outs)) (c_pop c)) 5.
+  ++ flag (setset_eqb (map o_alloc (popularity (c_mults c) outs)) (c_pop c)) 5
+  ++ flag (genuine c (c_swc c) && genuine c (c_pop c)) 6.
 
 Definition run (cs : list case) : list (nat * nat) := run_cases check 0 cs.
